@@ -20,6 +20,7 @@ import json
 import os
 import random
 import sys
+from concurrent.futures import ThreadPoolExecutor
 
 from harness import tlc, tracecheck, MachineryError, runner
 
@@ -32,10 +33,23 @@ CFG = """SPECIFICATION Spec
 CONSTANTS
   MaxArr = %(maxarr)d
   Gaps = {%(gaps)s}
-  Serials = {0,1,2,3,4,5,6,7,8,9,10,11,12,13,14,15}
+  Serials = {%(serials)s}
+  NCodes = {%(ncodes)s}
+  B2 = {%(b2)s}
+  Iface = "%(iface)s"
 %(extra)s
 """
-INVS = "VIEW View\nINVARIANT NoBad\nINVARIANT QuiescentOk\nINVARIANT TokenAgrees\nINVARIANT LastAgrees"
+INVS = "VIEW View\nINVARIANT NoBad\nINVARIANT QuiescentOk\nINVARIANT TokenAgrees\nINVARIANT LastAgrees\nINVARIANT EndAgrees"
+ALL16 = ", ".join(str(i) for i in range(16))
+
+
+def cb_consts(maxarr, ncodes):
+    return dict(maxarr=maxarr, gaps="0, 127, 128, 129", serials=ALL16, ncodes=ncodes, b2="FALSE", iface="cb")
+
+
+def bw_consts(maxarr, ncodes):
+    # the layer above Request._run: order and overwriting, not the arithmetic (serials with differences 1, 7, 8, 9)
+    return dict(maxarr=maxarr, gaps="0, 129", serials="0, 1, 8, 9", ncodes=ncodes, b2="FALSE, TRUE", iface="bwcb")
 
 
 # ---------------------------------------------------------------- running the real code
@@ -70,7 +84,11 @@ def rx_step(e):
 
 
 def behaviour_to_schedule(beh):
-    steps, expected = [], []
+    """-> (schedule, expected events).  Behaviours of the BlockwiseRequest configuration become
+    observedrive schedules (callbacks on the outer observation); the answers to the client's block
+    requests become the reactive peer's plan (delay = model time between request and answer)."""
+    steps, expected, fetch = [], [], []
+    bw, con, t_req = False, False, None
     for label, st in beh[1:]:
         emit = st.get("emit", [])
         if not emit:
@@ -78,14 +96,32 @@ def behaviour_to_schedule(beh):
         e0 = emit[0]
         if e0["k"] == "submit":
             con = emit[1]["ty"] == "CON"
+            bw = e0["x"] == "bwcb"
             steps.append({"at": e0["t"], "do": "submit", "q": 1, "r": 1, "con": con, "observe": 0, "f": 0.0})
+        elif e0["k"] == "rx" and e0["q"] == 0 and e0["cls"] == "resp":
+            fetch.append({"delay": e0["t"] - t_req, "more": False, "plen": 10, "ty": e0["ty"]})
         elif e0["k"] == "rx":
-            steps += [rx_step(e) for e in emit if e["k"] == "rx"]
+            for e in emit:
+                if e["k"] == "rx":
+                    x = rx_step(e)
+                    if e["x"] == "b2":
+                        x["b2"], x["plen"] = [0, True, 0], 16
+                    steps.append(x)
         elif e0["k"] == "err":
             steps.append({"at": e0["t"], "do": "err", "r": 1})
         else:  # give-up: only time passes
             steps.append({"at": e0["t"], "do": "wait"})
+        for e in emit:
+            if e["k"] == "tx" and e["cls"] == "req" and e["q"] == 0:
+                t_req = e["t"]
         expected += [project(e) for e in emit]
+    if bw:
+        for x in steps:
+            x.pop("r", None)
+        return {"iface": "bwcb", "con": con, "start": "resp", "delay": 0, "tuning": dict(TUNING), "mid0": 300, "tok0": 77,
+                "steps": steps[1:] or [{"at": 8, "do": "wait"}], "fetch": fetch, "fetch_default": None,
+                # a behaviour that stops while a block is outstanding is cut there (the request would give up 6 s later)
+                "horizon": 0 if beh[-1][1].get("fetch") else None}, expected
     return {"tuning": dict(TUNING), "mid0": 300, "tok0": 77, "nremotes": 2, "steps": steps, "horizon": None}, expected
 
 
@@ -105,15 +141,16 @@ def project(e):
 
 
 def compare(expected, real):
-    got = [project(e) for e in real if e["k"] in ("submit", "rx", "rxend", "notif", "obsend", "done", "err", "tx")]
-    # retransmissions of the request are the message layer's business (C03): keep only its first copy
-    out, seen_req = [], False
-    for x in got:
-        if x[0] == "tx" and x[3] == "req":
-            if seen_req:
+    # retransmissions of a request are the message layer's business (C03): keep only its first copy
+    out, seen = [], set()
+    for e in real:
+        if e["k"] not in ("submit", "rx", "rxend", "notif", "obsend", "done", "err", "tx"):
+            continue
+        if e["k"] == "tx" and e["cls"] == "req":
+            if e["mid"] in seen:
                 continue
-            seen_req = True
-        out.append(x)
+            seen.add(e["mid"])
+        out.append(project(e))
     for i, x in enumerate(expected):
         if i >= len(out):
             return "model predicts %d events, implementation produced %d; first missing %s" % (len(expected), len(out), x)
@@ -145,9 +182,23 @@ def next_time(rng, now, gt1):
     return now + rng.choice([0, 0, 1, 7, S, 5 * S, 127 * S, 128 * S - 1, 128 * S, 128 * S + 1, 129 * S, rng.randint(0, 300 * S)])
 
 
-def random_arrivals(rng, n, lossy=False, ended=False, t0=16):
-    """-> (Observe value of the first response, later arrivals {t, ty, obs|None, code, mid} | {t, err})"""
+SUCCESS = [65, 66, 67, 68, 69]  # every 2.xx response may carry an Observe option (2.01 ... 2.05)
+
+
+def ncode(rng):
+    return rng.choice([69, 69, 67, 65, 66, 68])
+
+
+def next_time_close(rng, now):
+    return now + rng.choice([0, 0, 1, 7, 300, S])
+
+
+def random_arrivals(rng, n, lossy=False, ended=False, t0=16, b2prob=0.0):
+    """-> (Observe value of the first response, later arrivals {t, ty, obs|None, code, mid[, b2]} | {t, err});
+    after an arrival that announces further blocks (b2) the next ones follow closely, so that they
+    meet the completion of its body"""
     t = t0
+    close = 0
     v0 = rng.choice([0, 1, FULL - 1, FULL - 2, HALF, HALF - 1, rng.randint(0, FULL - 1)])
     gv1, gt1, seen = v0, t, [v0]
     out = []
@@ -160,7 +211,8 @@ def random_arrivals(rng, n, lossy=False, ended=False, t0=16):
             late = rng.random() < 0.8
             out.append({"t": t, "ty": ty, "obs": next_value(rng, seen, gv1) if late else None, "code": 69 if late else 132, "mid": mid})
             continue
-        t = next_time(rng, t, gt1)
+        t = next_time_close(rng, t) if close else next_time(rng, t, gt1)
+        close = max(0, close - 1)
         roll = rng.random()
         if roll < 0.12:
             out.append({"t": t, "ty": ty, "obs": None, "code": rng.choice([69, 132, 160, 68]), "mid": mid})
@@ -171,7 +223,10 @@ def random_arrivals(rng, n, lossy=False, ended=False, t0=16):
         else:
             v = next_value(rng, seen, gv1)
             seen.append(v)
-            out.append({"t": t, "ty": ty, "obs": v, "code": rng.choice([69, 69, 67]), "mid": mid})
+            out.append({"t": t, "ty": ty, "obs": v, "code": ncode(rng), "mid": mid})
+            if rng.random() < b2prob:
+                out[-1]["b2"] = True
+                close = 2
             if fresh(gv1, gt1, v, t):
                 gv1, gt1 = v, t
             if not lossy and rng.random() < 0.12:
@@ -192,7 +247,37 @@ def arr_to_rx(a):
     s = {"at": a["t"], "do": "rx", "r": 1, "ty": a["ty"], "code": a["code"], "tok": {"of": 1}, "mid": a["mid"]}
     if a["obs"] is not None:
         s["observe"] = a["obs"]
+    if a.get("b2"):
+        s["b2"] = [0, True, 0]  # block 0 of 16 bytes, more to come
+        s["plen"] = 16
     return s
+
+
+def tok0_choice(rng):
+    """The token counter starts just below a power of 256 in most runs, so that a few requests cross it."""
+    return rng.choice([65535 - rng.randint(0, 3), 255 - rng.randint(0, 3), 65535 - rng.randint(0, 3), 0, rng.randint(0, 65535)])
+
+
+def side_requests_cb(rng, steps, t_end):
+    """Further requests on the same context to the same endpoint next to the observation (drive.py):
+    plain ones that are answered at once, or a second observation."""
+    trig = []
+    q = 1
+    for _ in range(rng.randint(1, 3)):
+        q += 1
+        at = rng.choice([9, 12, 20, rng.randint(9, max(10, t_end)), t_end + 5])
+        con = rng.random() < 0.5
+        steps.append({"at": at, "do": "submit", "q": q, "r": 1, "con": con, "f": 0.0})
+        rx = {"r": 1, "ty": "ACK" if con else "NON", "code": 69, "tok": {"of": q}, "mid": {"of": q} if con else 9600 + q}
+        trig.append({"on": {"q": q, "copy": 1}, "delay": rng.choice([1, 3, 40]), "rx": rx})
+    if rng.random() < 0.35:
+        # a second observation (NON) that lives next to the first one: established, one notification
+        q += 1
+        steps.append({"at": 9, "do": "submit", "q": q, "r": 1, "con": False, "observe": 0, "f": 0.0})
+        trig.append({"on": {"q": q, "copy": 1}, "delay": 2, "rx": {"r": 1, "ty": "NON", "code": ncode(rng), "tok": {"of": q}, "mid": 9700, "observe": 100}})
+        trig.append({"on": {"q": q, "copy": 1}, "delay": 4, "rx": {"r": 1, "ty": "NON", "code": ncode(rng), "tok": {"of": q}, "mid": 9701, "observe": 101}})
+    steps.sort(key=lambda x: x["at"])  # stable: equal instants keep their order
+    return trig
 
 
 def random_cb_schedule(rng):
@@ -200,7 +285,8 @@ def random_cb_schedule(rng):
     steps = [{"at": 8, "do": "submit", "q": 1, "r": 1, "con": con, "observe": 0, "f": 0.0}]
     opening = rng.random()
     fty = rng.choice(["ACK", "CON", "NON"] if con else ["NON", "CON"])
-    first = {"at": 16, "do": "rx", "r": 1, "ty": fty, "code": 69, "tok": {"of": 1}, "mid": {"of": 1} if fty == "ACK" else 9000}
+    first = {"at": 16, "do": "rx", "r": 1, "ty": fty, "code": ncode(rng), "tok": {"of": 1}, "mid": {"of": 1} if fty == "ACK" else 9000}
+    triggers = []
     if opening < 0.06:  # transport failure before any response
         steps.append({"at": 16, "do": "err", "r": 1})
         v0, arr = random_arrivals(rng, rng.randint(0, 2), ended=True)
@@ -217,17 +303,51 @@ def random_cb_schedule(rng):
         steps += opening_steps(con, first)
     for a in arr:
         steps.append({"at": a["t"], "do": "err", "r": 1} if a.get("err") else arr_to_rx(a))
-    return {"tuning": dict(TUNING), "mid0": rng.randint(0, 65535), "tok0": rng.choice([0, 255, 65535, rng.randint(0, 65535)]),
-            "nremotes": 2, "steps": steps, "horizon": None}
+    if opening >= 0.18 and rng.random() < 0.3:
+        triggers = side_requests_cb(rng, steps, steps[-1]["at"])
+    return {"tuning": dict(TUNING), "mid0": rng.randint(0, 65535), "tok0": tok0_choice(rng),
+            "nremotes": 2, "steps": steps, "triggers": triggers, "horizon": None}
+
+
+def fetch_plans(rng, n=6):
+    """How the peer answers the client's requests for further blocks: at once / late / possibly after the next
+    arrivals (which follow within 0..1 s) -- always before the request would give up (6 s)."""
+    out = []
+    for _ in range(n):
+        more = rng.random() < 0.25
+        out.append({"delay": rng.choice([1, 5, 300, 1500, 3000]), "more": more, "plen": 16 if more else rng.randint(1, 16),
+                    "ty": rng.choice(["ACK", "ACK", "NON", "CON"])})
+    return out
+
+
+def side_requests_lossy(rng, steps):
+    """Other requests on the same context while the observation lives / after it, optionally after a long
+    row of short-lived requests (burn: their tokens were reserved and released) that brings the token
+    counter to a multiple of 2^8 or 2^16 away from the observation's token."""
+    t_end = steps[-1]["at"]
+    at = rng.choice([20, 20, rng.randint(17, max(18, t_end)), t_end + 3])
+    k = rng.randint(1, 3)
+    extra = []
+    roll = rng.random()
+    if roll < 0.5:
+        extra.append({"at": at, "do": "burn", "n": (65536 if roll < 0.3 else 256) - rng.randint(1, k)})
+    for j in range(k):
+        con = rng.random() < 0.5
+        extra.append({"at": at + j, "do": "submit", "q": 2 + j, "con": con,
+                      "reply": {"delay": rng.choice([1, 3, 40]), "ty": rng.choice(["ACK", "NON", "CON"]), "code": 69}})
+    steps += extra
+    steps.sort(key=lambda x: x["at"])
 
 
 def random_lossy_schedule(rng):
-    iface = rng.choice(["iter", "iter", "bwiter", "bwiter", "bwcb"])
+    iface = rng.choice(["iter", "iter", "bwiter", "bwiter", "bwcb", "cb"])
+    bw = iface in ("bwiter", "bwcb")
     con = rng.random() < 0.6
     opening = rng.random()
-    v0, arr = random_arrivals(rng, rng.randint(1, 8) if opening >= 0.12 else rng.randint(0, 2), lossy=True, ended=opening < 0.12)
+    v0, arr = random_arrivals(rng, rng.randint(1, 8) if opening >= 0.12 else rng.randint(0, 2), lossy=True, ended=opening < 0.12,
+                              b2prob=0.3 if bw and rng.random() < 0.5 else 0.0)
     fty = rng.choice(["ACK", "CON", "NON"] if con else ["NON", "CON"])
-    first = {"at": 16, "do": "rx", "ty": fty, "code": 69, "tok": {"of": 1}, "mid": {"of": 1} if fty == "ACK" else 9000}
+    first = {"at": 16, "do": "rx", "ty": fty, "code": ncode(rng), "tok": {"of": 1}, "mid": {"of": 1} if fty == "ACK" else 9000}
     steps = []
     if opening < 0.06:
         steps.append({"at": 16, "do": "err"})
@@ -236,6 +356,8 @@ def random_lossy_schedule(rng):
         steps += opening_steps(con, first)
     else:
         first["observe"] = v0
+        if bw and rng.random() < 0.08:
+            first["b2"], first["plen"] = [0, True, 0], 16  # the first response itself is block-wise
         steps += opening_steps(con, first)
     for a in arr:
         if a.get("err"):
@@ -251,9 +373,12 @@ def random_lossy_schedule(rng):
                 prev["rx"].append(rx)
         else:
             steps.append(rx)
-    return {"iface": iface, "con": con, "start": rng.choice(["early", "resp", "resp"]),
-            "delay": 0 if iface == "bwcb" else rng.choice([0, 0, 0, 1, 40, 3 * S, 200 * S]), "tuning": dict(TUNING),
-            "mid0": rng.randint(0, 65535), "tok0": rng.randint(0, 65535), "steps": steps, "horizon": None}
+    if opening >= 0.12 and rng.random() < (0.6 if iface == "cb" else 0.25):
+        side_requests_lossy(rng, steps)
+    start = rng.choice(["early", "resp", "resp", "late"])
+    return {"iface": iface, "con": con, "start": start, "start_delay": rng.choice([1, 600, 3 * S, 130 * S]),
+            "delay": 0 if iface in ("bwcb", "cb") else rng.choice([0, 0, 0, 1, 40, 3 * S, 200 * S]), "tuning": dict(TUNING),
+            "mid0": rng.randint(0, 65535), "tok0": tok0_choice(rng), "steps": steps, "fetch": fetch_plans(rng), "horizon": None}
 
 
 # ---------------------------------------------------------------- directed schedules (always run)
@@ -270,6 +395,24 @@ def directed_cb():
                      {"at": 16 + gap, "do": "rx", "r": 1, "ty": "CON", "code": 69, "tok": {"of": 1}, "mid": 9002, "observe": (x + d) % FULL},
                      {"at": 16 + gap + 1, "do": "rx", "r": 1, "ty": "NON", "code": 69, "tok": {"of": 1}, "mid": 9003, "observe": (x + d + 1) % FULL}]
             out.append({"tuning": dict(TUNING), "mid0": 300, "tok0": 77, "nremotes": 2, "steps": steps, "horizon": None})
+    sub = {"at": 8, "do": "submit", "q": 1, "r": 1, "con": False, "observe": 0, "f": 0.0}
+    def n(at, v, code=69, q=1, mid=None, ty="NON"):
+        return {"at": at, "do": "rx", "r": 1, "ty": ty, "code": code, "tok": {"of": q}, "mid": mid if mid is not None else 9000 + v + 50 * q, "observe": v}
+    # every success code may carry an Observe option: 2.04 first, 2.01 / 2.02 / 2.03 / 2.05 notifications
+    out.append({"tuning": dict(TUNING), "mid0": 300, "tok0": 77, "nremotes": 2, "horizon": None,
+                "steps": [sub, n(16, 5, 68), n(2 * S, 6, 65), n(3 * S, 7, 66, ty="CON"), n(4 * S, 8, 67), n(5 * S, 9, 69)]})
+    # other requests next to the live observation (token counter crossing 2^8 / 2^16), then a notification
+    for tok0 in (253, 65533, 65535, 1000):
+        side = [{"at": S + j, "do": "submit", "q": 2 + j, "r": 1, "con": bool(j % 2), "f": 0.0} for j in range(3)]
+        trig = [{"on": {"q": 2 + j, "copy": 1}, "delay": 3, "rx": {"r": 1, "ty": "ACK" if j % 2 else "NON", "code": 69, "tok": {"of": 2 + j},
+                                                                    "mid": {"of": 2 + j} if j % 2 else 9600 + j}} for j in range(3)]
+        out.append({"tuning": dict(TUNING), "mid0": 300, "tok0": tok0, "nremotes": 2, "horizon": None, "triggers": trig,
+                    "steps": [sub, n(16, 5), n(100, 6)] + side + [n(3 * S, 7), n(4 * S, 8, ty="CON")]})
+    # two observations to one endpoint: both live on, both are told a transport failure
+    sub2 = dict(sub, q=2, at=9)
+    for tail in ([{"at": 3 * S, "do": "err", "r": 1}], [n(3 * S, 7), n(3 * S + 1, 103, q=2)]):
+        out.append({"tuning": dict(TUNING), "mid0": 300, "tok0": 77, "nremotes": 2, "horizon": None,
+                    "steps": [sub, sub2, n(16, 5), n(17, 100, q=2), n(100, 6), n(101, 101, q=2)] + tail})
     return out
 
 
@@ -300,7 +443,57 @@ def directed_lossy():
                     continue
                 out.append({"iface": iface, "con": False, "start": start, "delay": delay, "tuning": dict(TUNING),
                             "mid0": 300, "tok0": 77, "steps": json.loads(json.dumps(steps)), "horizon": None})
+
+    def mk(iface, steps, **kw):
+        d = {"iface": iface, "con": False, "start": "resp", "delay": 0, "tuning": dict(TUNING), "mid0": 300, "tok0": 77,
+             "steps": json.loads(json.dumps(steps)), "horizon": None}
+        d.update(kw)
+        out.append(d)
+
+    # block-wise notification bodies: what arrives while the next block of 6 is outstanding
+    b6 = dict(n6, b2=[0, True, 0], plen=16)
+    b7 = dict(at(n7, 2 * S + 100), b2=[0, True, 0], plen=16)
+    n8 = {"at": 2 * S + 200, "do": "rx", "ty": "NON", "code": 69, "tok": {"of": 1}, "mid": 9004, "observe": 8}
+    late = [{"delay": 500, "more": False, "plen": 10}]
+    for iface in ("bwiter", "bwcb"):
+        for con in (False, True):
+            op = opening_steps(con, dict(first, ty="NON"))
+            for o in op:
+                o.pop("r", None)
+            mk(iface, op + [b6, at(n7, 2 * S + 100)], fetch=late, con=con)                      # a fresher one
+            mk(iface, op + [b6, at(n7, 2 * S + 100), at(n8, 2 * S + 200)], fetch=late, con=con)   # two: only the latest survives
+            mk(iface, op + [b6, at(fin, 2 * S + 100)], fetch=late, con=con)                     # the terminating response
+            mk(iface, op + [b6, {"at": 2 * S + 100, "do": "err"}], fetch=late, con=con)         # transport failure
+            mk(iface, op + [b6, b7, n8], fetch=[{"delay": 500, "more": True, "plen": 16}, {"delay": 300, "more": False, "plen": 3}] + late, con=con)
+            mk(iface, op + [b6, at(n7, 3 * S)], fetch=[{"delay": 5, "more": False, "plen": 10}], con=con)   # completed in time
+        mk(iface, [dict(first, b2=[0, True, 0], plen=16), at(n6, 100), at(n7, 200)], fetch=late)    # block-wise first response
+        mk(iface, [dict(first, b2=[0, True, 0], plen=16), at(fin, 100)], fetch=late)
+    # every success code may carry an Observe option
+    codes = [dict(first, code=68), dict(n6, code=65), dict(n7, code=66), dict(at(n8, 3 * S + 5), code=69)]
+    for iface in ("cb", "iter", "bwiter", "bwcb"):
+        mk(iface, codes)
+    # late registration: what arrived before the iteration started comes out through the replay
+    for iface in ("iter", "bwiter"):
+        mk(iface, [first, at(n6, 100), at(n7, 3 * S)], start="late", start_delay=S)
+        mk(iface, [first, at(n6, 100), at(n7, 200)], start="late", start_delay=S)
+        mk(iface, [first, at(n6, 100), at(fin, 200)], start="late", start_delay=S)
+        mk(iface, [{"at": 16, "do": "burst", "rx": [first, at(n6, 16)]}], start="resp")
+    # other requests while the observation lives, the token counter crossing 2^8 / 2^16 and coming round
+    for iface in ("cb", "iter", "bwcb"):
+        for wrap, tok0 in ((65536, 65533), (256, 253), (65536, 65535), (65536, 40000)):
+            for back in (1, 2):
+                side = [{"at": S + j, "do": "submit", "q": 2 + j, "con": bool(j % 2), "reply": {"delay": 3, "ty": "ACK", "code": 69}} for j in range(3)]
+                mk(iface, [first, at(n6, 100), {"at": S, "do": "burn", "n": wrap - back}] + side + [at(n7, 3 * S)], tok0=tok0)
     return out
+
+
+def directed_big_wrap():
+    """Thorough tier: the token counter is taken once around 2^24 (16.7 million reservations)."""
+    first = {"at": 16, "do": "rx", "ty": "NON", "code": 69, "tok": {"of": 1}, "mid": 9000, "observe": 5}
+    n7 = {"at": 3 * S, "do": "rx", "ty": "NON", "code": 69, "tok": {"of": 1}, "mid": 9002, "observe": 7}
+    side = [{"at": S + j, "do": "submit", "q": 2 + j, "con": False, "reply": {"delay": 3, "ty": "NON", "code": 69}} for j in range(3)]
+    return [{"iface": "cb", "con": False, "start": "resp", "delay": 0, "tuning": dict(TUNING), "mid0": 300, "tok0": 65534,
+             "steps": [first, {"at": S, "do": "burn", "n": (1 << 24) - 2}] + side + [n7], "horizon": None}]
 
 
 # ---------------------------------------------------------------- signatures, statistics
@@ -396,6 +589,16 @@ def judge(rep, wd, scheds, results):
                 % (full, pos, e["k"], e["t"], e["obs"], e["x"] or e["cls"], len(traces[i]), iface_of(scheds[i])),
                 {"schedule": scheds[i], "events": traces[i], "meta": results[i]["meta"]},
             )
+    # the clauses do not speak about exceptions escaping into the event loop or ERROR-level log records; they are
+    # not what the library does on a healthy run either: reported (DRIFT), grouped by text
+    noise = {}
+    for i, res in enumerate(results):
+        for txt in res["meta"].get("loop_exceptions", []) + res["meta"].get("log_errors", []):
+            noise.setdefault(str(txt)[:140], []).append(i)
+    for txt, where in sorted(noise.items()):
+        if not all(i in bad for i in where):
+            rep.add_drift("loop exception / logged error in %d recorded execution(s) (first on interface %s): %s"
+                          % (len(where), iface_of(scheds[where[0]]), txt))
     return traces, bad
 
 
@@ -417,31 +620,45 @@ def work(rep, args):
             rep.coverage["last_replay"] = {"file": args.replay, "clauses_false": sorted({v.clause for v in rep.violations})}
             return
 
-        consts = dict(maxarr=5 if quick else 8, gaps="0, 127, 128, 129")
-        nsim = 300 if quick else 4000
+        ncodes = "68, 69" if quick else "65, 66, 67, 68, 69"
+        consts = cb_consts(5 if quick else 7, ncodes)
+        consts_bw = bw_consts(3 if quick else 4, "68, 69")
+        nsim = 240 if quick else 3000
+        nsim_bw = 120 if quick else 1500
         ncb = 700 if quick else 12000
-        nlossy = 500 if quick else 8000
+        nlossy = 560 if quick else 9000
 
-        wd.write("OC_run.cfg", CFG % dict(consts, extra=INVS))
-        mc = tlc.run(wd, "ObserveClient.tla", "OC_run.cfg", timeout=900)
-        tlc.need_ok_run(mc, "ObserveClient model check")
-        if mc.violated:
-            raise MachineryError("the ObserveClient model itself violates %s:\n%s" % (mc.violated, mc.out[-1500:]))
-
-        wd.write("OC_sim.cfg", CFG % dict(maxarr=6, gaps=consts["gaps"], extra=""))
-        simdir = wd.file("sim")
-        os.makedirs(simdir)
-        sim = tlc.run(wd, "ObserveClient.tla", "OC_sim.cfg", workers=1, timeout=600,
-                      simulate="file=%s/tr,num=%d" % (simdir, nsim), depth=10, seed=args.seed + 1)
-        tlc.need_ok_run(sim, "ObserveClient simulation")
-        behaviours = tlc.read_sim_traces(os.path.join(simdir, "tr"))
+        # four TLC runs side by side: exhaustive and -simulate, for the plain Request and for BlockwiseRequest
+        wd.write("OC_cb.cfg", CFG % dict(consts, extra=INVS))
+        wd.write("OC_bw.cfg", CFG % dict(consts_bw, extra=INVS))
+        wd.write("OC_simcb.cfg", CFG % dict(cb_consts(6, "65, 66, 67, 68, 69"), extra=""))
+        wd.write("OC_simbw.cfg", CFG % dict(bw_consts(5, "65, 68, 69"), extra=""))
+        for d in ("simcb", "simbw"):
+            os.makedirs(wd.file(d))
+        jobs = {
+            "cb": lambda: tlc.run(wd, "ObserveClient.tla", "OC_cb.cfg", timeout=1500),
+            "bw": lambda: tlc.run(wd, "ObserveClient.tla", "OC_bw.cfg", timeout=1500),
+            "simcb": lambda: tlc.run(wd, "ObserveClient.tla", "OC_simcb.cfg", workers=1, timeout=900,
+                                     simulate="file=%s/tr,num=%d" % (wd.file("simcb"), nsim), depth=10, seed=args.seed + 1),
+            "simbw": lambda: tlc.run(wd, "ObserveClient.tla", "OC_simbw.cfg", workers=1, timeout=900,
+                                     simulate="file=%s/tr,num=%d" % (wd.file("simbw"), nsim_bw), depth=14, seed=args.seed + 2),
+        }
+        with ThreadPoolExecutor(4) as ex:
+            futs = {k: ex.submit(f) for k, f in jobs.items()}
+            tl = {k: f.result() for k, f in futs.items()}
+        for k, r in tl.items():
+            tlc.need_ok_run(r, "ObserveClient " + k)
+            if r.violated:
+                raise MachineryError("the ObserveClient model (%s) itself violates %s:\n%s" % (k, r.violated, r.out[-1500:]))
+        mc, mcbw = tl["cb"], tl["bw"]
+        behaviours = tlc.read_sim_traces(os.path.join(wd.file("simcb"), "tr")) + tlc.read_sim_traces(os.path.join(wd.file("simbw"), "tr"))
         model = [behaviour_to_schedule(b) for b in behaviours]
-        model = [(s, e) for s, e in model if s["steps"]]
+        model = [(s, e) for s, e in model if e]
         if not model:
             raise MachineryError("TLC simulation produced no behaviours")
 
         cb = directed_cb() + [random_cb_schedule(rng) for _ in range(ncb)]
-        lossy = directed_lossy() + [random_lossy_schedule(rng) for _ in range(nlossy)]
+        lossy = directed_lossy() + ([] if quick else directed_big_wrap()) + [random_lossy_schedule(rng) for _ in range(nlossy)]
         scheds = [s for s, _ in model] + cb + lossy
         results = run_all(scheds)
         traces, bad = judge(rep, wd, scheds, results)
@@ -458,25 +675,34 @@ def work(rep, args):
         per_iface = {}
         for s in lossy:
             per_iface[s["iface"]] = per_iface.get(s["iface"], 0) + 1
-        st = stats(traces[: len(model) + len(cb)])
+        st = stats([t for s_, t in zip(scheds, traces) if iface_of(s_) == "cb"])
         if not rep.violations:
             for key in ("handed_over_by_128s_rule_only", "difference_exactly_2^23", "wrap_around_accepts", "gap_exactly_128s", "not_handed_over", "late_con_rst"):
                 if not st[key]:
                     raise MachineryError("vacuous run: no case of %s among %d recorded arrivals" % (key, st["arrivals"]))
         rep.coverage.update(
             {
-                "states": mc.distinct,
-                "transitions": mc.generated,
-                "depth": mc.depth,
-                "mc_constants": consts,
+                "states": mc.distinct + mcbw.distinct,
+                "transitions": mc.generated + mcbw.generated,
+                "depth": max(mc.depth, mcbw.depth),
+                "mc_plain_request": dict(consts, states=mc.distinct, transitions=mc.generated, depth=mc.depth),
+                "mc_blockwise_request": dict(consts_bw, states=mcbw.distinct, transitions=mcbw.generated, depth=mcbw.depth),
                 "exhaustive": True,
                 "traces_validated_against_impl": len(traces),
                 "schedules_from_model_behaviours": len(model),
+                "schedules_from_blockwise_model_behaviours": sum(1 for s_, _ in model if "iface" in s_),
                 "model_behaviours_reproduced_exactly": len(model) - ndrift,
                 "schedules_callback_interface_full_24bit": len(cb),
                 "schedules_lossy_interfaces": per_iface,
                 "lossy_consumer_busy": sum(1 for s in lossy if s["delay"]),
                 "lossy_back_to_back_bursts": sum(1 for s in lossy for x in s["steps"] if x["do"] == "burst"),
+                "lossy_late_registration": sum(1 for s in lossy if s.get("start") == "late"),
+                "schedules_with_blockwise_notifications": sum(1 for s in lossy if any(x.get("b2") for st_ in s["steps"] for x in (st_.get("rx", [st_]) if st_["do"] == "burst" else [st_]))),
+                "block_requests_answered": sum(r["meta"].get("block_fetches_answered", 0) for r in results),
+                "schedules_with_other_requests": sum(1 for s in scheds if sum(1 for x in s["steps"] if x["do"] == "submit") > ("iface" not in s)),
+                "schedules_crossing_token_2^16_or_2^8": sum(1 for s in scheds if any(x["do"] == "burn" for x in s["steps"])),
+                "tokens_reserved_and_released": sum(r["meta"].get("tokens_burned", 0) for r in results),
+                "notification_codes_seen": sorted({e["code"] for t in traces for e in t if e["k"] == "notif" and e["obs"] >= 0}),
                 "callback_interface_statistics": st,
                 "iterator_items_seen": sum(1 for t in lossy_traces for e in t if e["k"] == "notif"),
                 "traces_with_a_false_clause": len(bad),
@@ -491,7 +717,9 @@ def work(rep, args):
         rep.assumptions += [
             "virtual-time event loop (aiocoap.protocol.time redirected to it) and fake UDP socket stand in for the OS",
             "notifications carry fresh message IDs; datagram duplicates (same message ID) are injected at the same instant only, where the message layer's deduplication and the freshness rule agree",
-            "non-2.xx responses never carry an Observe option; Observe values stay below 2^24",
+            "non-2.xx responses never carry an Observe option; Observe values stay below 2^24; every 2.xx code (2.01..2.05) may carry one",
+            "other requests next to a live observation: up to 3 per schedule, plus 2^16 (2^8) minus a few token reservations through TokenManager.next_token (thorough: once 2^24 - 2) standing for that many short-lived requests; a token allocator that hands the observation's token out again only after more than that many requests, or only in an order not of this shape, is not detected",
+            "the peer answers every request for a further block of a block-wise notification within 3 s (before the request would give up); every other request on the context is answered",
             "on the iterator / BlockwiseRequest only what a latest-value queue can guarantee is demanded: items are an in-order subsequence of the RFC-accepted arrivals, the latest one comes out while the observation lives, a final response comes out before the end, one end, nothing after it",
             "application-side cancellation and context shutdown during an observation are outside the statement",
         ]
